@@ -543,7 +543,7 @@ func (state *RuntimeState) internalTOTPAuthHandler(w http.ResponseWriter, r *htt
 		return
 	}
 
-	_, err = state.updateAuthCookieAuthlevel(w, r, currentAuthLevel|AuthTypeTOTP)
+	_, err = state.updateAuthCookieAuthlevel(w, r, authUser, currentAuthLevel|AuthTypeTOTP)
 	if err != nil {
 		logger.Printf("Auth Cookie NOT found ? %s", err)
 		state.writeFailureResponse(w, r, http.StatusInternalServerError, "Failure when validating OTP token")
